@@ -217,6 +217,7 @@ func init() {
 			rules.L0(rc, nil)
 			rules.LGuards(rc, "C04")
 			rules.LC(rc, 18)
+			rules.K1(rc, rules.Families(rc.P), func(f string) bool { return strings.HasPrefix(f, "tensor.handleFuncOpts") || strings.HasPrefix(f, "tensor.prepData") }, 2)
 			rules.V1(rc)
 			rules.O8(rc)
 			rules.S9(rc)
